@@ -3,7 +3,7 @@ from checks import cross
 
 PROP = "C18"
 BUILDS = [Build("rculist", "harness/c18_rculist.c", extra_repo=["urcu-pointer.c"])]
-BUILDS = BUILDS + cross.gp_builds() + cross.defer_builds() + cross.poll_builds()   # cross-property core jobs (checks/cross.py)
+BUILDS = BUILDS + cross.gp_builds() + cross.callrcu_builds() + cross.defer_builds() + cross.poll_builds()   # cross-property core jobs (checks/cross.py)
 RULE = ("the updater's operation sequence (add_rcu, add_tail_rcu, del_rcu at every position, replace_rcu at every position; hlist: "
         "add_head_rcu, del_rcu) of length 'steps' on an initial list of 0-3 nodes is enumerated, and for each sequence every schedule "
         "(preemption / x86-TSO store-delay budget) of the updater's individual pointer stores against 1-2 readers traversing with the "
@@ -30,6 +30,7 @@ def jobs(tier):
         J.append(Job("rculist", "list", "1,0,0,0" if q else "2,0,0,0", dict(hlist=hl, ninit=2, steps=3 if q else 4, readers=1, walks=1), workers=8))
     # the components this property's guarantee is built on, on the real code (checks/cross.py)
     J += cross.gp_core(tier)
+    J += cross.callrcu_core(tier)
     J += cross.defer_core(tier)
     J += cross.poll_core(tier)
     return J
